@@ -482,6 +482,10 @@ func (g *gen) field(thisField, thatField string, fieldType types.Type) (string, 
 	case *types.Map:
 		return fmt.Sprintf("%s(%s, %s)", g.GetFuncName(typ, typ), thisField, thatField), nil
 	case *types.Struct:
+		if _, isNamed := fieldType.(*types.Named); !isNamed {
+			// taking the address of an unnamed struct leads straight back here
+			return "", fmt.Errorf("unsupported unnamed struct, which is not comparable with the == operator: %s", g.TypeString(fieldType))
+		}
 		return g.field("&"+thisField, "&"+thatField, types.NewPointer(fieldType))
 	default: // *Chan, *Tuple, *Signature, *Interface, *types.Basic.Kind() == types.UntypedNil, *Struct
 		return "", fmt.Errorf("unsupported type %#v", fieldType)
